@@ -371,7 +371,10 @@ func (s *stubAPI) Version() (*types.VersionInfo, error) {
 	s.rec("Version")
 	return &types.VersionInfo{Title: "sim"}, nil
 }
-func (s *stubAPI) IsSync() (*types.Reply, error) { s.rec("IsSync"); return &types.Reply{IsOk: true}, nil }
+func (s *stubAPI) IsSync() (*types.Reply, error) {
+	s.rec("IsSync")
+	return &types.Reply{IsOk: true}, nil
+}
 func (s *stubAPI) IsNtpClockSync() (*types.Reply, error) {
 	s.rec("IsNtpClockSync")
 	return &types.Reply{IsOk: true}, nil
@@ -406,7 +409,10 @@ func (s *stubAPI) AddPushSubscribe(*types.PushSubscribeReq) (*types.ReplySubscri
 	s.rec("AddPushSubscribe")
 	return nil, errors.New("sim: no push service")
 }
-func (s *stubAPI) CloseQueue() (*types.Reply, error) { s.rec("CloseQueue"); return &types.Reply{IsOk: true}, nil }
+func (s *stubAPI) CloseQueue() (*types.Reply, error) {
+	s.rec("CloseQueue")
+	return &types.Reply{IsOk: true}, nil
+}
 
 // handlerOf maps what the API saw back to the RPC method that ran.
 func handlerOf(endpoint, call string) string {
@@ -439,9 +445,21 @@ func handlerOf(endpoint, call string) string {
 // Sim is the harness's own JSON-RPC service (registered like a plugin's).
 type Sim struct{ api *stubAPI }
 
-func (s *Sim) Echo(in *types.ReqNil, out *interface{}) error    { s.api.rec("sim:Echo"); *out = "ok"; return nil }
-func (s *Sim) Version(in *types.ReqNil, out *interface{}) error { s.api.rec("sim:Version"); *out = "ok"; return nil }
-func (s *Sim) Admin(in *types.ReqNil, out *interface{}) error   { s.api.rec("sim:Admin"); *out = "ok"; return nil }
+func (s *Sim) Echo(in *types.ReqNil, out *interface{}) error {
+	s.api.rec("sim:Echo")
+	*out = "ok"
+	return nil
+}
+func (s *Sim) Version(in *types.ReqNil, out *interface{}) error {
+	s.api.rec("sim:Version")
+	*out = "ok"
+	return nil
+}
+func (s *Sim) Admin(in *types.ReqNil, out *interface{}) error {
+	s.api.rec("sim:Admin")
+	*out = "ok"
+	return nil
+}
 
 // the same as a gRPC service, wired through the server's interceptor exactly as
 // generated code does
